@@ -487,6 +487,9 @@ func EVAL(ctx context.Context, ast MalType, env EnvType) (res MalType, e error) 
 			switch first(last) {
 			case "catch":
 				finallyDo = nil
+				if len(last.(List).Val) < 3 {
+					return nil, lisperror.NewLispError(errors.New("catch must have 2 arguments at least"), ast)
+				}
 				catchBind = last.(List).Val[1]
 				catchDo = List{Val: last.(List).Val[2:]}
 				tryDo = List{Val: lst[1 : len(lst)-1]}
@@ -497,6 +500,9 @@ func EVAL(ctx context.Context, ast MalType, env EnvType) (res MalType, e error) 
 				finallyDo = List{Val: last.(List).Val[1:]}
 				switch first(prelast) {
 				case "catch":
+					if len(prelast.(List).Val) < 3 {
+						return nil, lisperror.NewLispError(errors.New("catch must have 2 arguments at least"), ast)
+					}
 					catchBind = prelast.(List).Val[1]
 					catchDo = List{Val: prelast.(List).Val[2:]}
 					tryDo = List{Val: lst[1 : len(lst)-2]}
